@@ -14,7 +14,8 @@ DRIVER = "Driver/C25.lean"
 OBLIGATIONS = ["NiftyVerif.C25." + t for t in (
     "crash_safe_all", "crash_safe_all_single", "marker_implies_complete", "uninterrupted_all", "natSys_lawful",
     "asFound_marker_truncated", "asFound_marker_before_history", "asFound_marker_before_minisanity_history",
-    "asFound_latest_in_place", "latest_window_witness")]
+    "asFound_latest_in_place", "latest_window_witness", "resume_correct_latest", "latest_outside_window_good",
+    "crash_safe_latest_partial")]
 RULE = ("case = (configuration incl. save strategy, kill points of successive runs, then an unkilled resume); ALL single "
         "kill points of the MODEL's byte-granular operation sequence (every op boundary and every position inside a "
         "write) plus random double kills are mapped to the real run and executed on the real driver with simulated "
